@@ -1011,19 +1011,39 @@ func (up4 *UP4) removeUeAddrAndFSEIDMappings(pdr pdr) {
 	delete(up4.fseidToUEAddr, pdr.fseID)
 }
 
-func (up4 *UP4) updateTunnelPeersBasedOnFARs(fars []far) error {
+// updateTunnelPeersBasedOnFARs makes every forwarding downlink FAR a user of its tunnel peer.
+// It returns the FARs whose reference on their peer is new: if the request fails later on,
+// dropTunnelPeerReferences takes exactly those back. When it fails itself it has done so already.
+func (up4 *UP4) updateTunnelPeersBasedOnFARs(fars []far) ([]far, error) {
+	acquired := make([]far, 0, len(fars))
+
 	for _, far := range fars {
 		logger := logger.PfcpLog.With("far", far)
 		// downlink FAR with tunnel params that does encapsulation
 		if far.Forwards() && far.dstIntf == ie.DstInterfaceAccess && far.tunnelTEID != 0 {
-			if _, err := up4.addOrUpdateGTPTunnelPeer(far); err != nil {
+			added, err := up4.addOrUpdateGTPTunnelPeer(far)
+			if err != nil {
 				logger.Errorf("failed to add or update GTP tunnel peer: %v", err)
-				return err
+				up4.dropTunnelPeerReferences(acquired)
+
+				return nil, err
+			}
+
+			if added {
+				acquired = append(acquired, far)
 			}
 		}
 	}
 
-	return nil
+	return acquired, nil
+}
+
+// dropTunnelPeerReferences gives up the references that a failed request had acquired on
+// tunnel peers, and removes the peers that are left without user.
+func (up4 *UP4) dropTunnelPeerReferences(fars []far) {
+	for _, f := range fars {
+		up4.removeGTPTunnelPeer(f)
+	}
 }
 
 func getMeterConfigurationFromQER(mbr uint64, gbr uint64) *p4.MeterConfig {
@@ -1527,7 +1547,21 @@ func (up4 *UP4) modifyUP4ForwardingConfiguration(pdrs []pdr, allFARs []far, qers
 	return nil
 }
 
-func (up4 *UP4) sendCreate(all PacketForwardingRules, updated PacketForwardingRules) error {
+func (up4 *UP4) sendCreate(all PacketForwardingRules, updated PacketForwardingRules) (err error) {
+	// An establishment that fails half-way is rejected and its session is dropped: whatever it
+	// has acquired and written by then must be given back, or it is lost for good.
+	var (
+		counters int   // PDRs (from the first on) that hold a counter cell
+		peers    []far // FARs that acquired a reference on a tunnel peer
+		written  bool  // some table entries may have reached the switch
+	)
+
+	defer func() {
+		if err != nil {
+			up4.revertCreate(all, updated, counters, peers, written)
+		}
+	}()
+
 	for i := range updated.pdrs {
 		val, err := up4.allocateCounterID(preQosCounterID)
 		if err != nil {
@@ -1535,6 +1569,7 @@ func (up4 *UP4) sendCreate(all PacketForwardingRules, updated PacketForwardingRu
 		}
 
 		all.pdrs[i].ctrID = uint32(val)
+		counters++
 
 		if err := up4.resetCounter(all.pdrs[i]); err != nil {
 			return ErrOperationFailedWithReason("Reset Counters", err.Error())
@@ -1549,17 +1584,51 @@ func (up4 *UP4) sendCreate(all PacketForwardingRules, updated PacketForwardingRu
 		return err
 	}
 
-	if err := up4.updateTunnelPeersBasedOnFARs(updated.fars); err != nil {
-		// TODO: revert operations (e.g. reset counter)
+	if peers, err = up4.updateTunnelPeersBasedOnFARs(updated.fars); err != nil {
 		return err
 	}
 
+	written = true
+
 	if err := up4.modifyUP4ForwardingConfiguration(all.pdrs, all.fars, all.qers, p4.Update_INSERT); err != nil {
-		// TODO: revert operations (e.g. reset counter)
 		return err
 	}
 
 	return nil
+}
+
+// revertCreate undoes what a failed sendCreate has done so far: it removes the table entries
+// that may have been written (best effort, PDR by PDR: the switch may be the reason for the
+// failure) and returns counter cells, meter cells, tunnel peer and application references and
+// the UE address mappings.
+func (up4 *UP4) revertCreate(all PacketForwardingRules, updated PacketForwardingRules, counters int, peers []far, written bool) {
+	if written {
+		for _, p := range all.pdrs {
+			if err := up4.modifyUP4ForwardingConfiguration([]pdr{p}, all.fars, all.qers, p4.Update_DELETE); err != nil {
+				logger.PfcpLog.Warnln("failed to remove table entries of a rejected session:", err)
+			}
+
+			if !p.IsAppFilterEmpty() {
+				up4.releaseInternalApplicationID(p)
+			}
+		}
+	}
+
+	up4.dropTunnelPeerReferences(peers)
+
+	for _, q := range updated.qers {
+		if _, exists := up4.meters[meterID{qerID: q.qerID, fseid: q.fseID}]; exists {
+			up4.resetMeters([]qer{q})
+		}
+	}
+
+	for i := 0; i < counters; i++ {
+		up4.releaseCounterID(preQosCounterID, uint64(all.pdrs[i].ctrID))
+	}
+
+	for _, p := range updated.pdrs {
+		up4.removeUeAddrAndFSEIDMappings(p)
+	}
 }
 
 // releaseStaleTunnelPeers drops the references that updated FARs still hold on tunnel peers
@@ -1613,7 +1682,7 @@ func (up4 *UP4) sendUpdate(all PacketForwardingRules, updated PacketForwardingRu
 		up4.updateUEAddrAndFSEIDMappings(p)
 	}
 
-	if err := up4.updateTunnelPeersBasedOnFARs(updated.fars); err != nil {
+	if _, err := up4.updateTunnelPeersBasedOnFARs(updated.fars); err != nil {
 		restoreMappings()
 		return err
 	}
